@@ -315,6 +315,9 @@ where
 {
     let alpha = alphabet(cubic, thorough);
     let a = alpha.len();
+    let title = name;
+    // violation classes and replay keys carry the coin's name without the run label
+    let name = name.split(" (").next().unwrap_or(name);
     // shard by the first two operations
     let shards: Vec<(usize, usize, usize)> = (0..3).flat_map(|si| (0..a).flat_map(move |x| (0..a).map(move |y| (si, x, y)))).collect();
     let outs = mck::par_map(shards.len(), |k| {
@@ -349,7 +352,7 @@ where
     st_total.1 += trans;
     st_total.2 += hist;
     s.into_report(
-        &format!("{name}: all histories up to depth {depth}"),
+        &format!("{title}: all histories up to depth {depth}"),
         json!({"alphabet": alpha.iter().map(|o| format!("{o:?}")).collect::<Vec<_>>(), "seeds": 3, "histories": hist, "transitions": trans,
                "draw_outputs_checked_for_wellformedness": draws, "reseed_twin_pairs": twins, "distinct_output_vectors": outs_set.len()}),
         report,
@@ -501,13 +504,24 @@ pub fn run(args: &Args) {
     type B128 = f128::BaseElement;
     let mut tot = (0u64, 0u64, 0u64);
     let (d_fast, d_slow) = if thorough { (6, 4) } else { (5, 3) };
-    explore::<B64, Blake3_256<B64>>("Blake3_256<f64>", true, d_fast, thorough, &mut report, &mut tot);
-    explore::<B64, Blake3_192<B64>>("Blake3_192<f64>", true, d_fast - 1, thorough, &mut report, &mut tot);
-    explore::<B128, Sha3_256<B128>>("Sha3_256<f128>", false, d_fast - 1, thorough, &mut report, &mut tot);
-    explore::<B62, Blake3_256<B62>>("Blake3_256<f62>", true, d_fast - 1, thorough, &mut report, &mut tot);
-    explore::<B64, Rp64_256>("Rp64_256", true, d_slow, thorough, &mut report, &mut tot);
-    explore::<B64, RpJive64_256>("RpJive64_256", true, d_slow, thorough, &mut report, &mut tot);
-    explore::<B62, Rp62_248>("Rp62_248", true, d_slow, thorough, &mut report, &mut tot);
+    // the base alphabet to the full depth; thorough adds the extended alphabet (long integer
+    // draws, 63-bit domains) one level shallower, which keeps the tier within minutes
+    explore::<B64, Blake3_256<B64>>("Blake3_256<f64>", true, d_fast, false, &mut report, &mut tot);
+    explore::<B64, Blake3_192<B64>>("Blake3_192<f64>", true, d_fast - 1, false, &mut report, &mut tot);
+    explore::<B128, Sha3_256<B128>>("Sha3_256<f128>", false, d_fast - 1, false, &mut report, &mut tot);
+    explore::<B62, Blake3_256<B62>>("Blake3_256<f62>", true, d_fast - 1, false, &mut report, &mut tot);
+    explore::<B64, Rp64_256>("Rp64_256", true, d_slow, false, &mut report, &mut tot);
+    explore::<B64, RpJive64_256>("RpJive64_256", true, d_slow, false, &mut report, &mut tot);
+    explore::<B62, Rp62_248>("Rp62_248", true, d_slow, false, &mut report, &mut tot);
+    if thorough {
+        explore::<B64, Blake3_256<B64>>("Blake3_256<f64> (extended alphabet)", true, d_fast - 1, true, &mut report, &mut tot);
+        explore::<B64, Blake3_192<B64>>("Blake3_192<f64> (extended alphabet)", true, d_fast - 2, true, &mut report, &mut tot);
+        explore::<B128, Sha3_256<B128>>("Sha3_256<f128> (extended alphabet)", false, d_fast - 2, true, &mut report, &mut tot);
+        explore::<B62, Blake3_256<B62>>("Blake3_256<f62> (extended alphabet)", true, d_fast - 2, true, &mut report, &mut tot);
+        explore::<B64, Rp64_256>("Rp64_256 (extended alphabet)", true, d_slow - 1, true, &mut report, &mut tot);
+        explore::<B64, RpJive64_256>("RpJive64_256 (extended alphabet)", true, d_slow - 1, true, &mut report, &mut tot);
+        explore::<B62, Rp62_248>("Rp62_248 (extended alphabet)", true, d_slow - 1, true, &mut report, &mut tot);
+    }
     long_runs::<B64, Blake3_256<B64>>("Blake3_256<f64>", true, 3, &mut report, &mut tot);
     long_runs::<B64, Blake3_192<B64>>("Blake3_192<f64>", true, 3, &mut report, &mut tot);
     long_runs::<B128, Sha3_256<B128>>("Sha3_256<f128>", false, 3, &mut report, &mut tot);
@@ -522,7 +536,8 @@ pub fn run(args: &Args) {
         "oracle": "R7: seed=hash_elements(seed); reseed: seed=merge(seed,d), counter=0; draw: merge_with_int(seed, ++counter) first 16 bytes as two canonical LE u64 or retry; integers: seed=merge_with_int(seed,nonce), counter=0, LE u64 & (N-1); PoW: trailing zeros of LE u64 of merge_with_int(seed,nonce)"}));
     report.exhaustive = true;
     report.rule = "states = histories (operation sequences) executed on a fresh real coin; non-trivial = histories with at least one draw/PoW step; every history is also replayed on a second fresh coin (determinism) and on the reference coin (conformance), and, when it contains a reseed, against its twin with the other digest".into();
-    report.bounds = json!({"depth_fast_hashers": d_fast, "depth_rescue_hashers": d_slow, "seeds": 3, "coins": 7});
+    report.bounds = json!({"depth_fast_hashers": d_fast, "depth_rescue_hashers": d_slow, "seeds": 3, "coins": 7,
+        "extended_alphabet_depths": if thorough { json!({"Blake3_256<f64>": d_fast - 1, "other fast hashers": d_fast - 2, "rescue hashers": d_slow - 1}) } else { json!(null) }});
     report.assumptions = vec![
         "the hash primitives (hash_elements, merge, merge_with_int) are those C15/C16 check; R7 re-implements only the coin's bookkeeping".into(),
         "'reseeding with a different digest changes subsequent draws' is checked on outputs carrying >= 60 bits (elements, integer vectors); single PoW counts may coincide by chance".into(),
